@@ -217,7 +217,10 @@ func keysOf(m map[int]*nodeLog) map[int]bool {
 }
 
 func TestMain(m *testing.M) {
-	vt.Main(m, "C04", vt.NewLeg("main", 1200, 3000, 16, genCase, runCase))
+	vt.Main(m, "C04",
+		vt.NewLeg("main", 1200, 3000, 16, genCase, runCase),
+		vt.NewLeg("mount", 500, 2000, 8, genMount, runMount),
+	)
 }
 
 func TestLegs(t *testing.T)   { vt.TestLegs(t) }
